@@ -114,3 +114,16 @@ Proof.
   intros S ops Hnd H2 Hok m. apply (history_clean S Hnd H2 ops (mfresh S) (mfresh_clean S Hnd) Hok).
 Qed.
 Print Assumptions C14_history_no_resurrection.
+
+(* what Unmarshal copies out is a function of the populated set and of the content of the populated elements: two message
+   objects that agree on which of the struct's elements are populated, and hold equivalent content in those, fill the struct
+   identically - whatever their unpopulated elements hold is never copied out (row: one struct field with its index tag) *)
+From Iso Require Import Proofs.CompositeProofs Proofs.MarshalNested.
+Theorem C14_unmarshal_reads_set : forall S ma mb (l : list row),
+  (forall r, In r l -> rid r <> 1) ->
+  (forall r, In r l -> 0 <= rid r -> zmem (rid r) (m_present mb) = zmem (rid r) (m_present ma)) ->
+  (forall r, In r l -> 0 <= rid r -> zmem (rid r) (m_present ma) = true ->
+     exists s x y, get_spec S (rid r) = Some s /\ get_state ma (rid r) = Some x /\ get_state mb (rid r) = Some y /\ equiv s x y) ->
+  m_unmarshal_fields S mb l = m_unmarshal_fields S ma l.
+Proof. exact gunmarshal_congr. Qed.
+Print Assumptions C14_unmarshal_reads_set.
